@@ -226,6 +226,12 @@ func pathDepth(v ssa.Value, d int) string {
 	case *ssa.Global:
 		return "global:" + x.String()
 	case *ssa.FieldAddr:
+		if a, ok := x.X.(*ssa.Alloc); ok {
+			// field of a local struct variable that was assigned once (spilled parameter / captured variable)
+			if sv := singleStore(a); sv != nil {
+				return pathDepth(sv, d+1) + "." + fieldName(x.X.Type(), x.Field)
+			}
+		}
 		return pathDepth(x.X, d+1) + "." + fieldName(x.X.Type(), x.Field)
 	case *ssa.Field:
 		return pathDepth(x.X, d+1) + "." + fieldName(x.X.Type(), x.Field)
